@@ -17,6 +17,7 @@ import (
 	"sort"
 	"strconv"
 	"strings"
+	"syscall"
 	"time"
 
 	"verif/mc/engine"
@@ -114,6 +115,7 @@ func cmdCheck(args []string) int {
 	debug.SetMemoryLimit(6 << 30) // soft limit: the collector works harder instead of letting garbage of large tables pile up
 
 	start := time.Now()
+	stallUnreproduced := false
 	shards := chk.Shards(*tier)
 	col := engine.NewCollector()
 	pool := engine.Pool{Workers: *workers, Seed: seed, Watchdog: 45 * time.Minute, Stall: 100 * time.Second}
@@ -126,13 +128,22 @@ func cmdCheck(args []string) int {
 		for _, x := range res.Slowest {
 			slowest = max(slowest, x.Seconds)
 		}
-		return hangSuspect(id, *tier, res.HangSuspect, res.HangNote, *replays, time.Duration(slowest*float64(time.Second)))
+		if code := hangSuspect(id, *tier, res.HangSuspect, res.HangNote, *replays, time.Duration(slowest*float64(time.Second))); code != 2 {
+			return code
+		}
+		// The stall did not repeat when the shard ran alone (the code under test may share state between the
+		// instances of the parallel workers). Violations collected so far are still replayed and reported; if
+		// none is confirmed the run ends as a harness error.
+		stallUnreproduced = true
 	}
 
 	viols, counts := col.All()
 	// A violation is only believed after it has been re-executed twice from its recorded case with identical result.
 	var confirmed []engine.Violation
 	unconfirmed := 0
+	if stallUnreproduced {
+		unconfirmed++
+	}
 	for _, v := range viols {
 		if v.Case == nil {
 			engine.Fatalf("violation %s was reported without a replayable case", v.Sig)
@@ -209,7 +220,7 @@ func cmdCheck(args []string) int {
 	}
 
 	st := res.Stats
-	exhaustive := len(res.Skipped) == 0 && len(st.CapsHit) == 0
+	exhaustive := len(res.Skipped) == 0 && len(st.CapsHit) == 0 && !stallUnreproduced
 	cov := map[string]any{
 		"states":                        max(st.States, 1),
 		"transitions":                   max(st.Transitions, 1),
@@ -415,6 +426,7 @@ func hangSuspect(id, tier, shard, note, replays string, slowestShard time.Durati
 	if exe, err := os.Executable(); err == nil {
 		cmd := exec.Command(exe, "worker", id, shard, "--tier", tier)
 		cmd.Env = append(os.Environ(), "LZMC_CHILD=1")
+		cmd.SysProcAttr = &syscall.SysProcAttr{Pdeathsig: syscall.SIGKILL}
 		done := make(chan error, 1)
 		if err := cmd.Start(); err == nil {
 			go func() { done <- cmd.Wait() }()
